@@ -32,6 +32,14 @@ def configs(tier, seed):
                 continue
             out.append({"name": "vroom-%s-n%d-h%d-T%d" % (part, n, hm, T), "algo": "VROOM", "part": part, "d": 1, "T": T,
                         "params": {"n": n, "h_max": hm, "b": 1, "f_max": 1}, "cost": 2 ** (n // 2) * T})
+    # Mode B: concrete prefix (concrete draws, objective-like rewards), then symbolic rounds
+    for (n, hm, P) in ((8, 3, 5), (8, 2, 7)) + (((16, 4, 9),) if q else ()):
+        for part in ("B", "RB"):
+            for sd in (0, 1):
+                k = 2
+                pre = {"P": P, "k": k, "seed": sd, "peak": 0.3 if sd == 0 else 0.8, "noise": 0.4, "negative": sd == 1}
+                out.append({"name": "vroom-modeb-%s-n%d-h%d-P%d+%d-s%d" % (part, n, hm, P, k, sd), "algo": "VROOM", "part": part, "d": 1, "T": P + k,
+                            "params": {"n": n, "h_max": hm, "b": 1, "f_max": 1}, "prefix": pre, "cost": 2 ** hm * 4})
     out.append({"name": "vroom-B-n4-h3-T2-b2", "algo": "VROOM", "part": "B", "d": 1, "T": 2, "params": {"n": 4, "h_max": 3, "b": 2, "f_max": 3}})
     out.append({"name": "twin-vroom", "algo": "VROOM", "part": "B", "d": 1, "T": 2, "params": {"n": 4, "h_max": 2, "b": 1, "f_max": 1}, "twin": True, "expect_fail": "twin"})
     return out
